@@ -236,6 +236,40 @@ def canon1(t, buf, off, ln, strict):
     raise Inconclusive(f"canon1: kind {k}")
 
 
+def unfold_axioms(terms, depth=2):
+    """definition unfolding of the nested predicates occurring in `terms`: canon_<Y>_{s|c}(o, l) => canon1(Y, o, l) (sound by Y's
+    own obligations). Keeps counterexamples realistic; never needed for the proofs themselves."""
+    axioms = []
+    seen_p = set()
+    frontier = list(terms)
+    for _ in range(depth):
+        found = []
+        seen_t = set()
+
+        def walk(tm):
+            if T.is_const(tm) or tm in seen_t:
+                return
+            seen_t.add(tm)
+            if tm[0] == "app" and isinstance(tm[2], str) and tm[2].startswith("canon_") and tm not in seen_p:
+                seen_p.add(tm)
+                found.append(tm)
+            for x in (tm[3:] if tm[0] == "app" else tm[2:]):
+                if not isinstance(x, str):
+                    walk(x)
+        for tm in frontier:
+            walk(tm)
+        frontier = []
+        for pterm in found:
+            name = pterm[2]
+            y = name[len("canon_"):-2]
+            strict = name.endswith("_s")
+            body = canon1(y, "buf", pterm[3], pterm[4], strict)
+            ax = T.implies(pterm, body)
+            axioms.append(ax)
+            frontier.append(body)
+    return axioms
+
+
 def minimal_encoding(t):
     """bytes of the default value of t (empty vectors, absent options, zero arrays, first union arm), built from the schema"""
     tt = TYPES[t]
@@ -425,15 +459,14 @@ def access(S, ob, t, kmax=5, timeout=120):
         if fixed_size(y) is None:
             for nm_ in (f"over_{y}", f"canon_{y}_c", f"canon_{y}_s"):
                 ctx.uf_decls[nm_] = (T.BOOL, (T.INT, T.INT))
+    ctx.uf_decls["buf"] = (T.INT, (T.INT,))
     ps_c = verify_paths(S, ctx, t, sl, True, kmax)
     ok_c, pan_c, out_c = conds(ps_c, ctx)
     pre = [T.not_(out_c), ok_c]
+    pre = pre + unfold_axioms([ok_c])
     count = 0
     rn = "ByteReader" if t == "byte" else t + "Reader"
     reader = AggV((sl,), rn)
-    if t == "InIBD":
-        # native counterpart for replay: 8-byte inputs through the real from_compatible_slice + count_extra_fields
-        S.native(ctx, "inibd_count_extra_fields", [T.app("buf", T.INT, i) for i in range(8)], [1, 0], panic=True, pre=T.eq(L.t, 8))
     for name, fn, np in accessors_of(S, t):
         args = [ctx.ref_to(reader)]
         if np == 2:
@@ -441,7 +474,7 @@ def access(S, ob, t, kmax=5, timeout=120):
         ps = S.run(ctx, fn, args, allow=("return", "panic", "unwind"))
         pan = T.or_(*[p.cond() for p in ps if p.outcome == "panic"])
         outb = T.or_(*[p.cond() for p in ps if p.outcome == "unwind"])
-        S.prove(ctx, ob, f"{t}.{name}_never_panics_on_accepted_input", pre + [T.not_(outb)], T.not_(pan), timeout_s=timeout)
+        S.prove(ctx, ob, f"{t}.{name}_never_panics_on_accepted_input", pre + [T.not_(outb)], T.not_(pan), timeout_s=timeout, extra={"replay_native": ("mol_walk", t)})
         count += 1
         inside_all, nested_all = [], []
         for p in [p for p in ps if p.outcome == "return"]:
